@@ -166,7 +166,9 @@ func (bs *filesystemPartStore) PutPart(ctx context.Context, tx database.Tx, part
 		})
 		tx.OnAfterCommit(func(context.Context) error {
 			if backupCreated {
-				return os.Remove(backupName)
+				// The transaction is committed; a backup that cannot be removed
+				// must not turn the committed operation into a failed one.
+				_ = os.Remove(backupName)
 			}
 			return nil
 		})
@@ -273,7 +275,9 @@ func (bs *filesystemPartStore) DeletePart(ctx context.Context, tx database.Tx, p
 		})
 		tx.OnAfterCommit(func(context.Context) error {
 			if backupCreated {
-				return os.Remove(backupName)
+				// The transaction is committed; a backup that cannot be removed
+				// must not turn the committed operation into a failed one.
+				_ = os.Remove(backupName)
 			}
 			return nil
 		})
